@@ -51,7 +51,7 @@ Section PVRefine.
     assert (Hadv : forall n1, n_role n1 = Follower -> n_role (advance c0 c1 id n1) = Follower).
     { intros n1 H. unfold advance. rewrite H. exact H. }
     intros Hpre. apply Hadv. revert Hpre.
-    unfold handle_pv. destruct ev as [|p|[m|from to mt lt idx|from to mt rej]| |]; cbn [fst snd].
+    unfold handle_pv. destruct ev as [|p|[m|from to mt lt idx|from to mt rej]| | |]; cbn [fst snd].
     - unfold hup_pv. destruct (n_role n); try discriminate;
         (destruct (is_voter c0 c1 id); [|discriminate]);
         (destruct (tally c0 c1 (become_precandidate id n)); cbn [fst snd]; try discriminate; intros _; reflexivity).
@@ -70,6 +70,7 @@ Section PVRefine.
       intros _. unfold record_vote. destruct (n_votes n from); cbn; exact (Hp eq_refl).
     - discriminate.
     - exact Hp.
+    - destruct (n_role n) eqn:Er; cbn [fst snd]; try discriminate; intros H; pose proof (Hp H) as Hf; congruence.
   Qed.
 
   (* ---------------------------------------------------------------- one event *)
@@ -106,7 +107,7 @@ Section PVRefine.
     assert (Hcall : exists s1, reaches F s id (fst (fst (handle_pv c0 c1 id ev (n, pre))))
                                    (base_of (snd (handle_pv c0 c1 id ev (n, pre)))) s1).
     { assert (Hnop : exists s1, reaches F s id n (base_of []) s1) by (exists s; apply reaches_refl).
-      unfold handle_pv. destruct ev as [|p|[m|from to mt lt idx|from to mt rej]| |]; cbn [fst snd].
+      unfold handle_pv. destruct ev as [|p|[m|from to mt lt idx|from to mt rej]| | |]; cbn [fst snd].
       - (* campaign *)
         unfold hup_pv. fold n. destruct (n_role n) eqn:Er; cbn [fst]; try exact Hnop;
           (destruct (is_voter c0 c1 id); cbn [fst]; [|exact Hnop]);
@@ -153,7 +154,10 @@ Section PVRefine.
             exact (reaches_trans F s id _ [] s1 _ [] s2 R1 R2).
       - destruct (reaches_handle c0 c1 F HinF s id EvRestart) as [s1 R1]; [intros m Hm'; discriminate Hm'|].
         exists s1. exact R1.
-      - exact Hnop. }
+      - exact Hnop.
+      - (* CheckQuorum: the leader steps down *)
+        fold n. destruct (n_role n); cbn [fst snd base_of]; try exact Hnop.
+        eexists. eapply reaches_step; [apply (M_demote F s id None)|reflexivity|cbn; rewrite app_nil_r; reflexivity]. }
     unfold exec_pv. destruct (handle_pv c0 c1 id ev (n, pre)) as [[n1 pre1] out]. cbn [fst snd] in *.
     destruct Hcall as [s1 R1].
     destruct (reaches_advance c0 c1 F HinF s1 id) as [s2 R2]. rewrite (proj1 (proj2 R1)) in R2.
